@@ -46,6 +46,9 @@ Fixpoint digits (n : nat) (x : N) : list nat :=
 Definition oracle (seed : nat) : list nat :=
   let k := N.of_nat seed in digits 150 (N.shiftr ((3 ^ 320) * (2 * k + 1) * (k * k + 12345)) 8).
 Definition seeds : list nat := seq 0 1500.
+(* call-depth fuel of the example runs; generous so that an extra helper call in search.go (e.g.
+   staticEvaluation, /repo 73ba4a5) does not starve the examples *)
+Definition example_fuel : nat := 200.
 
 (* the first seed whose oracle drives s from c to a state accepted by good *)
 Definition find_run (fuel : nat) (s : stmt) (c : cstate cB cM cT)
@@ -73,7 +76,7 @@ Lemma go_run_exists : exists c',
   cexec (Call "Go" PlyKeep) (cstate0 1000) ONormal c'
   /\ (0 < nodes _ _ (fst c'))%Z /\ 0 < stores _ _ (fst c') /\ pv _ _ (fst c') 0 <> [].
 Proof.
-  assert (Found : exists orc, find_run 80 (Call "Go" PlyKeep) (cstate0 1000) good_go = Some orc)
+  assert (Found : exists orc, find_run example_fuel (Call "Go" PlyKeep) (cstate0 1000) good_go = Some orc)
     by (vm_compute; eexists; reflexivity).
   destruct Found as [orc F]. apply find_run_exec in F as [o [c' [Hex Hg]]]. unfold good_go in Hg.
   destruct o; try discriminate.
@@ -89,7 +92,7 @@ Definition good_budget (o : outcome) (c : cstate cB cM cT) : bool :=
 Lemma budget_run_exists : exists c',
   cexec (Call "Go" PlyKeep) (cstate0 3) ONormal c' /\ nodes _ _ (fst c') = 3%Z /\ aborted _ _ (fst c') = true.
 Proof.
-  assert (Found : exists orc, find_run 80 (Call "Go" PlyKeep) (cstate0 3) good_budget = Some orc)
+  assert (Found : exists orc, find_run example_fuel (Call "Go" PlyKeep) (cstate0 3) good_budget = Some orc)
     by (vm_compute; eexists; reflexivity).
   destruct Found as [orc F]. apply find_run_exec in F as [o [c' [Hex Hg]]]. unfold good_budget in Hg.
   destruct o; try discriminate. apply andb_true_iff in Hg as [H1 H2].
